@@ -298,6 +298,14 @@ def run(prog, check):
         for m in series_mutation(c.ast):
             if isinstance(m, ast.Call) and m.args:
                 v = m.args[-1]
+                if isinstance(v, ast.Name):
+                    # a temporary of the commit loop (`val = initial[var]`): its one definition in that loop
+                    for lp_ in c.loops:
+                        ds_ = [a_ for a_ in ast.walk(lp_) if isinstance(a_, ast.Assign) and len(a_.targets) == 1 and
+                               isinstance(a_.targets[0], ast.Name) and a_.targets[0].id == v.id]
+                        if len(ds_) == 1:
+                            v = ds_[0].value
+                            break
                 if isinstance(v, ast.Subscript) and isinstance(v.value, ast.Name):
                     committed.add(v.value.id)
     post_ids = {n.id for n in sw.post_nodes}
